@@ -33,16 +33,18 @@ def rtOk (s : Set) : Bool :=
   s.isEmpty || parseSet (toChars s) == some s
 
 def modelObs (s : Set) (probes : List Nat) : String :=
-  s!"{showRanges s}|{toStr s}|{boolStr (dynamic s)}|{bits (contains s) probes}|{boolStr (rtOk s)}"
+  -- the last field: sets passed to AddSet earlier are unchanged (values are immutable in the model)
+  s!"{showRanges s}|{toStr s}|{boolStr (dynamic s)}|{bits (contains s) probes}|{boolStr (rtOk s)}|1"
 
 /-- oracle on one implementation observation after the first `k` ops -/
 def oracleStep (opsSoFar : List Op) (probes : List Nat) (obs : String) : Option String :=
   match splitOnChar obs '|' with
-  | [rs, str, dyn, bs, rt] =>
+  | [rs, str, dyn, bs, rt, intact] =>
     match parseRanges? rs '-' with
     | none => some "unparsable-ranges"
     | some R =>
-      if !canonical R then some "not-canonical"
+      if intact != "1" then some "argument-of-AddSet-changed-afterwards"
+      else if !canonical R then some "not-canonical"
       else if bs != bits (memOps opsSoFar) probes then some "membership-not-union"
       else if dyn != boolStr (starOps opsSoFar) then some "dynamic-iff-star"
       else if rt != "1" then some "string-does-not-parse-back"
